@@ -456,7 +456,9 @@ func Document(t *rapid.T, o DocOpts) *DocCase {
 		// Now and then a collection of a size at which an implementation may
 		// switch strategy (batches, indexes, worker pools).
 		if rapid.IntRange(0, 24).Draw(t, "manymembers") == 0 {
-			nmem = rapid.IntRange(30, 70).Draw(t, "nmembers-many")
+			// (sizes around the powers of two, where work may be split up
+			// or a fixed buffer ends)
+			nmem = rapid.SampledFrom([]int{30, 31, 32, 33, 47, 48, 49, 50, 63, 64, 65, 66, 67, 70, 97, 130}).Draw(t, "nmembers-many")
 		}
 	}
 
@@ -578,7 +580,7 @@ func Document(t *rapid.T, o DocOpts) *DocCase {
 
 		// Now and then a long list (as for primary data).
 		if rapid.IntRange(0, 24).Draw(t, "manyincluded") == 0 {
-			n = rapid.IntRange(30, 70).Draw(t, "nincluded-many")
+			n = rapid.SampledFrom([]int{30, 31, 32, 33, 34, 47, 49, 63, 64, 65, 66, 70}).Draw(t, "nincluded-many")
 		}
 		for i := 0; i < n; i++ {
 			m, ok := narrowed(pick("inctype"), fmt.Sprintf("inc%d", i))
@@ -714,6 +716,11 @@ func Document(t *rapid.T, o DocOpts) *DocCase {
 				u.Params.Page["number"] = rapid.IntRange(0, 9).Draw(t, "pnum")
 			}
 
+			// (a URL filled from decoded JSON holds numbers as float64)
+			if rapid.IntRange(0, 5).Draw(t, "pfloat") == 0 {
+				u.Params.Page[rapid.SampledFrom([]string{"size", "number", "offset"}).Draw(t, "pfloat-key")] = rapid.SampledFrom([]float64{25, 0, 2000000, 1.5, -3}).Draw(t, "pfloat-val")
+			}
+
 			for _, k := range []string{"offset", "after", "limit", "cursor", "a b", "Z"} {
 				if rapid.IntRange(0, 3).Draw(t, "pother-"+k) == 0 {
 					u.Params.Page[k] = rapid.SampledFrom([]string{"abc", "20", "x y&z", ""}).Draw(t, "pother-val")
@@ -749,6 +756,13 @@ func Document(t *rapid.T, o DocOpts) *DocCase {
 		u.Fragments = []string{c.Primary[0].TS.Name, c.Primary[0].ID()}
 		u.ResType = c.Primary[0].TS.Name
 		u.ResID = c.Primary[0].ID()
+
+		// (the URL may be that of a resource of another type: what is
+		// shown of a resource goes by the resource's own type)
+		if len(ss.Types) > 1 && rapid.IntRange(0, 7).Draw(t, "url-othertype") == 0 {
+			u.ResType = ss.Types[rapid.IntRange(0, len(ss.Types)-1).Draw(t, "url-othertype-which")].Name
+			u.Fragments = []string{u.ResType, u.ResID}
+		}
 	case len(c.Idents) == 1:
 		u.Fragments = []string{c.Idents[0].Type, c.Idents[0].ID}
 		u.ResType = c.Idents[0].Type
